@@ -149,6 +149,10 @@ class Kind:
     def blocking(self, op, iargs):
         return False
 
+    def blocked(self, S, tid, name, cfg, op, iargs):
+        """State predicate: no case of this (blocking) operation is enabled."""
+        return S.A.b(False)
+
 
 def _flag(args, i, default):
     return args[i] if len(args) > i else default
@@ -233,6 +237,16 @@ class LockKind(Kind):
     def blocking(self, op, iargs):
         return op == 'acquire' and iargs[0] and not iargs[1]
 
+    def blocked(self, S, tid, name, cfg, op, iargs):
+        A = S.A
+        if not self.blocking(op, iargs):
+            return A.b(False)
+        own = S.get(name + '.owner')
+        held = A.ne(own, A.c(0, TIDW))
+        if cfg.get('reentrant'):
+            held = A.and_(held, A.ne(own, A.c(tid, TIDW)))
+        return held
+
 
 # ---------------------------------------------------------------------------------------------
 class EventKind(Kind):
@@ -271,6 +285,11 @@ class EventKind(Kind):
 
     def blocking(self, op, iargs):
         return op == 'wait' and not iargs[0]
+
+    def blocked(self, S, tid, name, cfg, op, iargs):
+        if not self.blocking(op, iargs):
+            return S.A.b(False)
+        return S.A.eq(S.get(name + '.flag'), S.A.c(0, 1))
 
 
 # ---------------------------------------------------------------------------------------------
@@ -468,6 +487,18 @@ class SeqKind(Kind):
             return iargs[0] and not iargs[1]
         return False
 
+    def blocked(self, S, tid, name, cfg, op, iargs):
+        A = S.A
+        if not self.blocking(op, iargs):
+            return A.b(False)
+        n = S.get(name + '.len')
+        if op == 'get':
+            return A.eq(n, A.c(0, CNTW))
+        maxsize = cfg.get('maxsize', 0)
+        if maxsize <= 0:
+            return A.b(False)
+        return A.uge(n, A.c(maxsize, CNTW))
+
 
 # ---------------------------------------------------------------------------------------------
 F_PENDING, F_RUNNING, F_CANCELLED, F_OK, F_EXC = 0, 1, 2, 3, 4
@@ -583,6 +614,15 @@ class FutureKind(Kind):
             return True  # (never called on a done future by the pool stub)
         return False
 
+    def blocked(self, S, tid, name, cfg, op, iargs):
+        A = S.A
+        if not self.blocking(op, iargs):
+            return A.b(False)
+        s = S.get(name + '.st')
+        if op == 'set_running_or_notify_cancel':
+            return A.not_(A.or_(A.eq(s, A.c(F_PENDING, 3)), A.eq(s, A.c(F_CANCELLED, 3))))
+        return A.ule(s, A.c(F_RUNNING, 3))
+
 
 # ---------------------------------------------------------------------------------------------
 T_NEW, T_STARTED, T_DONE = 0, 1, 2
@@ -638,6 +678,15 @@ class ThreadKind(Kind):
 
     def blocking(self, op, iargs):
         return op == 'begin' or (op == 'join' and not iargs[0])
+
+    def blocked(self, S, tid, name, cfg, op, iargs):
+        A = S.A
+        if not self.blocking(op, iargs):
+            return A.b(False)
+        s = S.get(name + '.st')
+        if op == 'begin':
+            return A.ne(s, A.c(T_STARTED, 2))
+        return A.ne(s, A.c(T_DONE, 2))
 
 
 # ---------------------------------------------------------------------------------------------
@@ -717,6 +766,12 @@ class PoolKind(Kind):
 
     def blocking(self, op, iargs):
         return op == 'take'
+
+    def blocked(self, S, tid, name, cfg, op, iargs):
+        A = S.A
+        if op != 'take':
+            return A.b(False)
+        return A.and_(A.eq(S.get(name + '.len'), A.c(0, CNTW)), A.eq(S.get(name + '.down'), A.c(0, 1)))
 
 
 # ---------------------------------------------------------------------------------------------
